@@ -7,6 +7,16 @@ VERIF = os.path.dirname(os.path.dirname(os.path.abspath(__file__)))
 
 # id -> (level, technique, level text, level note, design ref)
 CLAIMED = {
+    "C26": ("exploration",
+            "deterministic simulation: seeded call mixes (valid, wrong path/interface/member/arguments, no-reply) in flight against the real object server and macro-generated handlers; replies decoded independently and compared with a table model",
+            "A raw peer keeps several calls in flight against the corpus interface registered at two paths (sync/async, &self/&mut self, fallible and custom-error handlers, handlers sleeping on the simulated clock). The handler log must equal exactly the matching calls, and each call must get exactly one reply with the right serial, signature and value or the right standard error.",
+            "The corpus is hand-written (10 methods), not generated per seed; the no-reply flag on error paths and an extra argument to a zero-argument method are judged leniently.",
+            "DESIGN.md §3 C26"),
+    "C29": ("exploration",
+            "deterministic simulation: bursts of calls to spawn=false handlers that yield or sleep on the simulated clock, under seeded scheduling",
+            "Bursts of calls to a spawn = false interface (handlers returning, yielding, sleeping simulated microseconds; &self and &mut self) mixed with calls to a spawning interface. The start/end log of the no-spawn handlers must show no overlap and wire order; every call must be answered exactly once by quiescence.",
+            "Wire order = the order the raw peer wrote the calls in.",
+            "DESIGN.md §3 C29"),
     "C15": ("exploration",
             "deterministic simulation of real threads: baton scheduler with a scheduling point at every operation of the instrumented serial counter; wrap boundary preset through the zbus_verif hook",
             "2..4 real threads build messages while a seeded scheduler decides, at every atomic operation on the process-wide serial counter, which thread proceeds; the counter is preset around 0 and u32::MAX. All serials must be non-zero and distinct. The interleaving space of such short programs is small (thousands), so a few thousand seeded runs cover a large part of it, but it is sampled, not enumerated.",
